@@ -79,12 +79,70 @@ class RangeIt(It):
             self.r.f[0] = eng.binop("Add", s, Sc(s.ty, 1)); return s
         return None
 
+def _has_sym(v):
+    v = deref(v)
+    if isinstance(v, Sc): return v.sym()
+    if isinstance(v, StrV): return v.concrete() is None
+    if isinstance(v, VecV): return any(_has_sym(x) for x in v.items)
+    if isinstance(v, (Agg, En)): return any(_has_sym(x) for x in v.f)
+    return False
+def cmp_generic(eng, a, b):
+    """three-way comparison following derived Ord (lexicographic); forks on symbolic scalars"""
+    a, b = deref(a), deref(b)
+    if isinstance(a, Sc):
+        lt = eng.binop("Lt", a, b).v; eq = eng.binop("Eq", a, b).v
+        if isinstance(lt, bool) and isinstance(eq, bool): return -1 if lt else (0 if eq else 1)
+        return eng.choose([(-1, lt), (0, eq), (1, z3.And(z3.Not(lt), z3.Not(eq)))])
+    if isinstance(a, StrV):
+        x, y = a.concrete(), b.concrete()
+        if x is None or y is None:
+            if len(a.p) == 1 and len(b.p) == 1 and hasattr(eng, "name_order"): return eng.name_order(a.p[0], b.p[0])
+            raise Unmodelled("ordering of symbolic strings")
+        return -1 if x < y else (0 if x == y else 1)
+    if isinstance(a, En):
+        if a.idx != b.idx: return -1 if a.idx < b.idx else 1
+        xs, ys = a.f, b.f
+    elif isinstance(a, VecV): xs, ys = a.items, b.items
+    elif isinstance(a, Agg): xs, ys = a.f, b.f
+    elif hasattr(a, "sort_key"):
+        x, y = a.sort_key(), b.sort_key(); return -1 if x < y else (0 if x == y else 1)
+    else: raise Unmodelled("ordering of %r" % type(a).__name__)
+    for x, y in zip(xs, ys):
+        c = cmp_generic(eng, x, y)
+        if c: return c
+    return -1 if len(xs) < len(ys) else (0 if len(xs) == len(ys) else 1)
+def sym_sorted(eng, items, key=lambda x: x):
+    out = []
+    for it in items:
+        i = len(out)
+        while i > 0 and cmp_generic(eng, key(out[i-1]), key(it)) > 0: i -= 1
+        out.insert(i, it)
+    return out
+def hash_perm(eng, obj, items):
+    """iteration order of a hash container: insertion order, reversed, or (eng.hash_order == 'fork') an arbitrary
+    permutation chosen through the fork mechanism; stable for an unmodified container"""
+    mode = getattr(eng, "hash_order", "insertion")
+    if mode == "insertion" or len(items) < 2: return list(items)
+    if mode == "reversed": return list(reversed(items))
+    key = tuple(id(x) for x in items)
+    cache = getattr(obj, "_perm", None)
+    if cache is not None and cache[0] == key: return [items[i] for i in cache[1]]
+    rest = list(range(len(items))); perm = []
+    while len(rest) > 1:
+        k = eng.choose([(i, True) for i in rest]); perm.append(k); rest.remove(k)
+    perm += rest
+    obj._perm = (key, perm)
+    return [items[i] for i in perm]
 def eng_order(eng, m):
-    if m.kind == "btree": return sorted(m.e, key=lambda e: sort_key(e[0]))
-    return list(m.e)   # TODO hash order nondeterminism
+    if m.kind == "btree":
+        if any(_has_sym(e[0]) for e in m.e): return sym_sorted(eng, m.e, key=lambda e: e[0])
+        return sorted(m.e, key=lambda e: sort_key(e[0]))
+    return hash_perm(eng, m, m.e)
 def eng_order_set(eng, s):
-    if s.kind == "btree": return sorted(s.items, key=sort_key)
-    return s.items
+    if s.kind == "btree":
+        if any(_has_sym(x) for x in s.items): return sym_sorted(eng, s.items)
+        return sorted(s.items, key=sort_key)
+    return hash_perm(eng, s, s.items)
 
 def sort_key(v):
     v = deref(v)
@@ -592,3 +650,18 @@ def _(eng, m, g, a):
     if m.group(1) == m.group(2): return a[0]
     if m.group(1).endswith("String") and m.group(2) in ("&str", "&String", "&mut str"): return StrV(list(deref(a[0]).p))
     raise Pass()
+
+# ------------------------------------------------------------------ panics
+@model(r"^(?:core::panicking::|std::panicking::|std::rt::)?(panic_fmt|begin_panic_fmt)$")
+def _(eng, m, g, a):
+    try: msg = eng.call("format", [], [a[0]]); txt = "".join(p if isinstance(p, str) else "<sym>" for p in msg.p)
+    except Exception: txt = "<unformattable>"
+    raise Panic("panic: " + txt)
+@model(r"^(?:core::panicking::|std::panicking::|std::rt::)?(panic|panic_display|panic_explicit|unreachable_display|begin_panic|panic_str|panic_nounwind|panic_const_\w+|panic_cannot_unwind)$")
+def _(eng, m, g, a):
+    x = deref(a[0]) if a else None
+    raise Panic("panic: " + (x.concrete() or "<sym>" if isinstance(x, StrV) else m.group(1)))
+@model(r"^(?:core::option::|core::result::)?(expect_failed|unwrap_failed)$")
+def _(eng, m, g, a): raise Panic("panic: " + m.group(1))
+@model(r"^(?:core::panicking::)?(panic_bounds_check|assert_failed|assert_failed_inner)$")
+def _(eng, m, g, a): raise Panic("panic: " + m.group(1))
